@@ -58,7 +58,9 @@ func runC08(c *eng.Ctx, tier string) {
 	// R-C08-1
 	var idCall, decCall *ssa.Call
 	gates := map[string]bool{}
-	// (a gate may sit in a boolean helper whose true answer is tested here)
+	// (a gate may sit in a boolean helper whose true answer is tested here;
+	// a helper shared with the HTML page is judged at its call in serveJSON)
+	eng.SetRoot(sj)
 	for _, cond := range eng.FactsX(fnCall) {
 		if op, x, y, isCmp := cond.Cmp(); isCmp && op == token.EQL {
 			if s, isC := eng.ConstString(y); isC {
@@ -77,7 +79,7 @@ func runC08(c *eng.Ctx, tier string) {
 		}
 		if v, isNil, isE := cond.ErrCheck(); isE && isNil {
 			if call, _ := eng.TupleCall(v); call != nil {
-				if eng.Callee(&call.Call) == getIdentity && len(call.Call.Args) == 2 && eng.Origin(call.Call.Args[1]) == ssa.Value(rP) {
+				if eng.Callee(&call.Call) == getIdentity && len(call.Call.Args) == 2 && eng.OriginX(call.Call.Args[1]) == eng.OriginX(rP) {
 					gates["identity"] = true
 					idCall = call
 				}
@@ -113,8 +115,8 @@ func runC08(c *eng.Ctx, tier string) {
 	}
 	if idCall != nil && decCall != nil {
 		okOrder := false
-		for _, cond := range eng.FactsAt(decCall) {
-			if v, isNil, isE := cond.ErrCheck(); isE && isNil && eng.Same(v, saveErr(idCall)) {
+		for _, cond := range eng.FactsX(decCall) {
+			if v, isNil, isE := cond.ErrCheck(); isE && isNil && (eng.Same(v, saveErr(idCall)) || eng.Origin(v) == saveErr(idCall)) {
 				okOrder = true
 			}
 		}
@@ -157,15 +159,21 @@ func runC08(c *eng.Ctx, tier string) {
 		// negative answer leads here: every path of it that answers so has
 		// passed an error reply
 		for _, cond := range eng.FactsAt(r) {
-			call, _, truth, isCall := cond.BoolCall()
+			call, ridx, truth, isCall := cond.BoolCall()
 			if !isCall || !eng.IsHelper(sj, eng.Callee(&call.Call)) {
 				continue
 			}
 			h := eng.Callee(&call.Call)
 			answered := true
 			found := false
+			if ridx < 0 {
+				ridx = 0 // the helper's single result
+			}
 			for _, hr := range eng.Returns(h) {
-				k, isC := eng.Origin(eng.RetVals(hr)[0]).(*ssa.Const)
+				if ridx >= len(eng.RetVals(hr)) {
+					continue
+				}
+				k, isC := eng.Origin(eng.RetVals(hr)[ridx]).(*ssa.Const)
 				if isC && k.Value != nil && (k.Value.String() == "true") != truth {
 					continue
 				}
@@ -184,6 +192,7 @@ func runC08(c *eng.Ctx, tier string) {
 		}
 		c.Check(hasErr, "R-C08-1", sj, r.Pos(), "refusal return before the handler", "answers through http.Error (non-2xx)", "returns without an error reply")
 	}
+	eng.SetRoot(nil)
 	// status table after fn
 	ferr := saveErr(fnCall)
 	statusOn := func(pkgrel, name string) (int64, *ssa.BasicBlock, bool) {
@@ -400,6 +409,10 @@ func c08Routes(c *eng.Ctx, sj, getIdentity *ssa.Function) {
 			sjCalls := 0
 			eng.Instrs(h, func(x ssa.Instruction) {
 				if ci, ok := x.(ssa.CallInstruction); ok {
+					// (an adapter that only wraps the handler function is part of the argument)
+					if _, isAd := forwardingAdapter(h, eng.Callee(ci.Common())); isAd {
+						return
+					}
 					calls++
 					if cal := eng.Callee(ci.Common()); cal != nil && cal.Origin() == sj {
 						sjCalls++
@@ -439,7 +452,7 @@ func c08Routes(c *eng.Ctx, sj, getIdentity *ssa.Function) {
 				} else if m.Name == "List" {
 					// HTML page: Method == GET and nil identity error
 					get, id := false, false
-					for _, cond := range eng.FactsAt(in) {
+					for _, cond := range eng.FactsX(in) {
 						if op, x, y, isCmp := cond.Cmp(); isCmp && op == token.EQL {
 							if s, isC := eng.ConstString(y); isC && s == "GET" {
 								if fr, _, isF := eng.LoadedField(x); isF && fr.Name == "Method" {
@@ -537,7 +550,7 @@ func c08Identity(c *eng.Ctx, f *ssa.Function) {
 		nWho++
 		okk := false
 		if len(call.Call.Args) == 2 && len(f.Params) == 2 {
-			if fr, base, isF := eng.LoadedField(call.Call.Args[1]); isF && fr.Name == "RemoteAddr" && eng.OriginX(base) == ssa.Value(f.Params[1]) {
+			if fr, base, isF := eng.LoadedField(call.Call.Args[1]); isF && fr.Name == "RemoteAddr" && eng.OriginX(base) == eng.OriginX(f.Params[1]) {
 				okk = true
 			}
 		}
@@ -581,6 +594,9 @@ func c08Identity(c *eng.Ctx, f *ssa.Function) {
 					}
 				}
 			}
+		}
+		if !need["cap"] {
+			need["cap"] = c08LastCapNil(f, r, caps)
 		}
 		for _, k := range []string{"parse", "whois", "cap"} {
 			c.Check(need[k], "R-C08-3", f, r.Pos(), "identified-caller return [gate "+k+"]", "a caller is identified only past the nil-error edge of "+map[string]string{"parse": "ParseAddrPort", "whois": "WhoIs", "cap": "the capability unmarshal"}[k], "holding: "+factsStr(eng.FactsX(r)))
@@ -641,7 +657,8 @@ func c08Client(c *eng.Ctx) {
 	}
 	// method and headers
 	sent := map[string]string{}
-	eng.Instrs(do, func(in ssa.Instruction) {
+	// (the transport may live in a helper of do)
+	eng.InstrsDeep(do, func(_ *ssa.Function, in ssa.Instruction) {
 		call, ok := in.(*ssa.Call)
 		if !ok {
 			return
@@ -691,6 +708,9 @@ func c08Client(c *eng.Ctx) {
 				if cal := eng.Callee(&call.Call); cal != nil && cal.Blocks != nil && eng.FuncPkg(cal) == p.TypesPkg(setecPkg) && len(call.Call.Args) == 1 && len(cal.Params) == 1 && codeIs(call.Call.Args[0]) {
 					prm := cal.Params[0]
 					collect(cal, func(x ssa.Value) bool { return eng.Origin(x) == ssa.Value(prm) }, depth+1)
+				} else if eng.IsHelper(f, cal) && eng.Origin(last) == saveErr(call) {
+					// the error of a transport helper handed on unchanged
+					collect(cal, isStatus, depth+1)
 				}
 			}
 		}
@@ -706,7 +726,7 @@ func c08Client(c *eng.Ctx) {
 			continue
 		}
 		okk := false
-		for _, cond := range eng.FactsAt(r) {
+		for _, cond := range eng.FactsX(r) {
 			if op, x, y, isCmp := cond.Cmp(); isCmp && op == token.EQL {
 				if k, isK := eng.ConstInt(y); isK && k == 200 {
 					if fr, _, isF := eng.LoadedField(x); isF && fr.Name == "StatusCode" {
@@ -718,4 +738,77 @@ func c08Client(c *eng.Ctx) {
 		c.Check(okk, "R-C08-4", do, r.Pos(), "client success return", "only under status 200", "holding: "+eng.FactsString(r))
 	}
 	_ = types.Typ
+}
+
+// c08LastCapNil: the path form of the capability gate, for lookups in a loop
+// over the accepted names (no single edge dominates the return there).  On
+// every feasible path of f to r (loops unrolled twice) a capability lookup
+// runs, and after each execution of one, the next thing decided on its error
+// is the nil edge: the path continues only past `err == nil` of that very
+// result before another lookup or the return.
+func c08LastCapNil(f *ssa.Function, r *ssa.Return, caps []*ssa.Call) bool {
+	isCap := map[ssa.Instruction]bool{}
+	for _, cc := range caps {
+		if cc.Parent() != f {
+			return false
+		}
+		isCap[cc] = true
+	}
+	if len(isCap) == 0 {
+		return false
+	}
+	paths, ok := eng.EnumPathsUntil(f, r.Block(), 2, 4096)
+	if !ok || len(paths) == 0 {
+		return false
+	}
+	n := 0
+	for _, pa := range paths {
+		if !pa.ConstFeasible() {
+			continue
+		}
+		n++
+		// executions of lookups along the path, in order
+		type exec struct {
+			pos  int
+			call *ssa.Call
+		}
+		var execs []exec
+		for i, b := range pa.Blocks {
+			for _, in := range b.Instrs {
+				if isCap[in] {
+					execs = append(execs, exec{i, in.(*ssa.Call)})
+				}
+			}
+		}
+		if len(execs) == 0 {
+			return false
+		}
+		for k, e := range execs {
+			end := len(pa.Blocks) - 1
+			if k+1 < len(execs) {
+				end = execs[k+1].pos
+			}
+			ev := saveErr(e.call)
+			passed := false
+			for i := e.pos; i < end && !passed; i++ {
+				b := pa.Blocks[i]
+				ifi, isIf := b.Instrs[len(b.Instrs)-1].(*ssa.If)
+				if !isIf || b.Succs[0] == b.Succs[1] {
+					continue
+				}
+				cd := eng.CondOf(ifi.Cond, pa.Blocks[i+1] == b.Succs[0])
+				if v, isNil, isE := cd.ErrCheck(); isE && ev != nil && pa.ResolveAt(v, i) == eng.Origin(ev) {
+					if !isNil {
+						// continuing (to another lookup or the return) on the failure edge
+						return false
+					}
+					passed = true
+				}
+			}
+			if !passed {
+				return false
+			}
+		}
+	}
+	return n > 0
 }
